@@ -204,6 +204,7 @@ func init() {
 			"Not decided: that the permutation arithmetic (UnsafePermute, cycle following, iterator order) is the right permutation; the composition law. Round 7: (T14) the saved permutation is the outer one wherever it is composed with another index vector; (T9) every successful return of the engine's Transpose has gone through the width dispatcher; (EP) refusals precede effects. Round 11: (T15) the transposed pattern is installed unchanged; (RS) the raw reshape is used only where no lazy transposition can be pending. Round 13: (UP) UnsafePermute exchanges elements by its pattern on every path. Round 15: (LC) raw copies on the materialise path; (I15) the column-major stepper flags exhaustion on its last axis.",
 		Quick: []string{"default", "inplacetranspose"},
 		Run: func(rc *rules.RC) {
+			rules.TI(rc)
 			rules.LC(rc, 18)
 			rules.I15(rc)
 			rules.UP(rc)
@@ -524,6 +525,7 @@ func init() {
 			"Not decided: the assembly divmod, numerical equality of results across engines, the cycle-following arithmetic of the in-place transpose. Round 7: (L0) the float engines' own tensor-scalar preparation decides like the default one (finding 81); (L2) their flat kernels do not run once the shared iterator decision was positive (finding 80); (L1) their Inner refuses views with gaps (finding 79). Round 11: (O8, CF) the saved axes, which only the in-place build reads, are never shared between a tensor and its clone.",
 		Quick: []string{"default", "inplacetranspose", "noasm"},
 		Run: func(rc *rules.RC) {
+			rules.TI(rc)
 			rules.RA(rc)
 			rules.O8(rc)
 			rules.CF(rc)
